@@ -26,26 +26,19 @@ open Sem Rules
 
 /-! ## group_local_assignment -/
 
-/-- full strength: the block hook of `group_local_assignment` never changes what a block does -/
-def group_refines_full : Prop :=
-  ∀ (N : NumOps) (call : CallFn N) (ρ : ExtOracle N) (k : Nat) (env : Env N) (b : Block) (σ : State N),
-    execB call ρ k env (GroupLocal.processBlock b ()).1 σ = execB call ρ k env b σ
+/-! F17 (`local a = f(), g()` merged with the next `local`, shifting values) is FIXED in /repo
+(`should_merge` now refuses a first statement whose value count differs from its variable count);
+the model follows the fixed code, and `H₁₆` is no longer a hypothesis on programs: it is implied by
+the rule's own decision (`GroupLocal.shouldMerge_h16`). What remains hypothetical below is only the
+allocation-order / captured-environment part (A), see `Rules/GroupLocal.lean`. -/
 
-/-- (D) F17: false. `local a = nil, true  local b = false  return b` returns `false`; the rule merges
-it into `local a, b = nil, true, false  return b`, which returns `true`. -/
-theorem group_refines_full_false : ¬ group_refines_full :=
-  GroupLocal.processBlock_not_exact
-
--- the witness is what the modelled hook really produces
-example : (GroupLocal.processBlock GroupLocal.f17Witness ()).1 =
-    .mk [.localAssign .loc [.mk "a" none, .mk "b" none] [.nil, .true, .false]] (some (.ret [.var "b"])) :=
+-- regression: the former F17 witness is now left alone by the hook
+example : (GroupLocal.processBlock GroupLocal.f17Witness ()).1 = GroupLocal.f17Witness :=
   GroupLocal.f17_rule_output
--- and it lies outside H₁₆
-example : GroupLocal.programOk GroupLocal.f17Witness = false := by decide
+example : GroupLocal.shouldMerge [.mk "a" none] [.nil, .true] [.false] = false := by decide
 
 /-- `group_refines_partial` — one merge step of the rule's loop, both statements with values.
-Under `H₁₆` (`h16`: the first statement has as many values as variables) the two statements and
-the merged one are exactly equal (success path), given that evaluating the second initialisers
+Whenever the rule decides to merge (`shouldMerge = true`) the two statements and the merged one are exactly equal (success path), given that evaluating the second initialisers
 before the first variables are bound yields the same values as after and commutes with binding
 them (`hframe`, `hcomm`: the semantic content of `should_merge`'s `FindVariables` check — see
 `Rules/GroupLocal.lean` for why this part is a hypothesis). Order of evaluation and multi-value
@@ -53,7 +46,7 @@ truncation are proved unconditionally inside. -/
 theorem group_refines_partial {N : NumOps} (call : CallFn N) (ρ : ExtOracle N) (k : Nat) (env : Env N)
     (k1 k2 : LocalKind) (ns1 ns2 : List TName) (vs1 vs2 : List Expr) (rest : List Stmt)
     (σ σ1 σ2 σ2' : State N) (ws1 ws2 : List (Val N))
-    (hH : GroupLocal.h16 ns1 vs1 = true) (hv1 : vs1 ≠ []) (hv2 : vs2 ≠ [])
+    (hS : GroupLocal.shouldMerge ns1 vs1 vs2 = true) (hv1 : vs1 ≠ []) (hv2 : vs2 ≠ [])
     (h1 : evalEs call ρ k env vs1 σ = .ok ws1 σ1)
     (h2 : evalEs call ρ k ⟨(bindLocals (GroupLocal.names ns1) ws1 env.locals σ1).1, env.varargs⟩ vs2
             (bindLocals (GroupLocal.names ns1) ws1 env.locals σ1).2 = .ok ws2 σ2')
@@ -63,7 +56,8 @@ theorem group_refines_partial {N : NumOps} (call : CallFn N) (ρ : ExtOracle N) 
     execSs call ρ k env (.localAssign k1 ns1 vs1 :: .localAssign k2 ns2 vs2 :: rest) σ
       = execSs call ρ k env
           (.localAssign k1 (GroupLocal.merge ns1 vs1 ns2 vs2).1 (GroupLocal.merge ns1 vs1 ns2 vs2).2 :: rest) σ :=
-  GroupLocal.merge_exact call ρ k env k1 k2 ns1 ns2 vs1 vs2 rest σ σ1 σ2 σ2' ws1 ws2 hH hv1 hv2 h1 h2 hframe hcomm
+  GroupLocal.merge_exact call ρ k env k1 k2 ns1 ns2 vs1 vs2 rest σ σ1 σ2 σ2' ws1 ws2
+    (GroupLocal.shouldMerge_h16 ns1 vs1 vs2 hS) hv1 hv2 h1 h2 hframe hcomm
 
 -- non-vacuity: `local a = true  local b = g` (g a global): all hypotheses hold, and the rule does merge
 example (σ : State unitOps) :
@@ -95,12 +89,13 @@ statement pads with `nil`s; exact with NO visibility hypothesis (nothing is eval
 first statement). -/
 theorem group_refines_partial_second_empty {N : NumOps} (call : CallFn N) (ρ : ExtOracle N) (k : Nat) (env : Env N)
     (k1 k2 : LocalKind) (ns1 ns2 : List TName) (vs1 : List Expr) (rest : List Stmt) (σ σ1 : State N)
-    (ws1 : List (Val N)) (hH : GroupLocal.h16 ns1 vs1 = true) (hv1 : vs1 ≠ []) (hn2 : ns2 ≠ [])
+    (ws1 : List (Val N)) (hS : GroupLocal.shouldMerge ns1 vs1 [] = true) (hv1 : vs1 ≠ []) (hn2 : ns2 ≠ [])
     (h1 : evalEs call ρ k env vs1 σ = .ok ws1 σ1) :
     execSs call ρ k env (.localAssign k1 ns1 vs1 :: .localAssign k2 ns2 [] :: rest) σ
       = execSs call ρ k env
           (.localAssign k1 (GroupLocal.merge ns1 vs1 ns2 []).1 (GroupLocal.merge ns1 vs1 ns2 []).2 :: rest) σ :=
-  GroupLocal.merge_exact_second_empty call ρ k env k1 k2 ns1 ns2 vs1 rest σ σ1 ws1 hH hv1 hn2 h1
+  GroupLocal.merge_exact_second_empty call ρ k env k1 k2 ns1 ns2 vs1 rest σ σ1 ws1
+    (GroupLocal.shouldMerge_h16 ns1 vs1 [] hS) hv1 hn2 h1
 
 example : GroupLocal.merge [.mk "a" none] [.true] [.mk "b" none, .mk "c" none] []
     = ([.mk "a" none, .mk "b" none, .mk "c" none], [.true, .nil, .nil]) := by
